@@ -264,6 +264,9 @@ pub struct State {
     pub hashes: graph::Hashes,
     pub default: Vec<FileId>,
     pub pools: SmallMap<String, usize>,
+    /// Files with ids below this one are named by the manifest; later ones are only known
+    /// from the build log (e.g. outputs of steps that were since removed).
+    pub manifest_files: FileId,
 }
 
 /// Load build.ninja/.n2_db and return the loaded build graph and state.
@@ -284,6 +287,7 @@ pub fn read(build_filename: &str) -> anyhow::Result<State> {
     })?;
 
     let mut hashes = graph::Hashes::default();
+    let manifest_files = loader.graph.files.by_id.next_id();
     let db = trace::scope("db::open", || {
         let mut db_path = PathBuf::from(".n2_db");
         if let Some(builddir) = &loader.builddir {
@@ -302,6 +306,7 @@ pub fn read(build_filename: &str) -> anyhow::Result<State> {
         hashes,
         default: loader.default,
         pools: loader.pools,
+        manifest_files,
     })
 }
 
